@@ -700,7 +700,7 @@ class TypedT1Property:
             try:
                 with np.errstate(all="ignore"):
                     ref = complex(fnp[key](*call))
-            except ZeroDivisionError:
+            except (ZeroDivisionError, TypeError):  # TypeError: numpy ufunc without a complex loop (arctan2)
                 ref = complex("nan")
             mp = mp_call(fmp[key], [float(v) for v in fpt])
             pd = per_def.setdefault(d.name, {"points": 0, "compared": 0})
